@@ -24,6 +24,8 @@ def run_history(tt, jobs):
     if os.path.exists(out):
       os.remove(out)
     status, exc = "ok", ""
+    if job.get("cwd"):
+      os.chdir(job["cwd"])
     try:
       tt.main(list(job["argv"]))
     except SystemExit as ex:
